@@ -143,3 +143,66 @@ func TestC19Stress(t *testing.T) {
 	}
 	pbt.Check(t, pbt.Prop[sigStress]{ID: "C19", Name: "stress", Gen: gen, Run: runSigStress})
 }
+
+// The lazy channel under real concurrency: several first users (Get) and one Close start together on a fresh Chan.
+// Whatever the interleaving, every Get returns a channel (never nil), all of them the same one, and it is closed once
+// Close has returned.
+
+type chanStress struct {
+	Getters int
+	Rounds  int
+}
+
+func runChanStress(c chanStress) (r pbt.Result) {
+	for round := 0; round < c.Rounds; round++ {
+		var ch drpcsignal.Chan
+		start := make(chan struct{})
+		got := make([]chan struct{}, c.Getters)
+		var wg sync.WaitGroup
+		for i := 0; i < c.Getters; i++ {
+			i := i
+			wg.Add(1)
+			go func() {
+				defer wg.Done()
+				<-start
+				got[i] = ch.Get()
+			}()
+		}
+		wg.Add(1)
+		go func() {
+			defer wg.Done()
+			<-start
+			ch.Close()
+		}()
+		close(start)
+		wg.Wait()
+		for i, g := range got {
+			if g == nil {
+				r.Failf("Get returned a nil channel")
+				r.Detailf("round %d getter %d of %+v", round, i, c)
+				return
+			}
+			if g != got[0] {
+				r.Failf("two Get calls returned different channels")
+				return
+			}
+		}
+		select {
+		case <-got[0]:
+		default:
+			r.Failf("the channel is not closed although Close has returned")
+			return
+		}
+	}
+	r.Label("concurrent_first_users_of_a_chan")
+	r.NonTrivial = c.Getters >= 2
+	r.Key = fmt.Sprintf("%+v", c)
+	return
+}
+
+func TestC19ChanStress(t *testing.T) {
+	gen := func(t *rapid.T) chanStress {
+		return chanStress{Getters: rapid.IntRange(1, 4).Draw(t, "getters"), Rounds: rapid.IntRange(100, 1000).Draw(t, "rounds")}
+	}
+	pbt.Check(t, pbt.Prop[chanStress]{ID: "C19", Name: "chan_stress", Gen: gen, Run: runChanStress})
+}
